@@ -45,7 +45,7 @@ def main (args : List String) : IO UInt32 := do
   | ["lpm"] => loopState stdin stdout LpmS.step (default : LpmS.S); return 0
   | ["table"] => loopState stdin stdout TableS.step (default : TableS.S); return 0
   | ["vtab"] => loopState stdin stdout TableS.step (default : TableS.S); return 0
-  | ["sched"] => loopState stdin stdout Sched.step (default : Sched.S); return 0
+  | ["sched"] => loopState stdin stdout Sched.stepAll (default : Sched.S); return 0
   | ["ws"] => loopState stdin stdout WSS.step (default : WSS.S); return 0
   | ["rec"] => loopState stdin stdout RecS.step (default : RecS.S); return 0
   | ["pmap"] => loopState stdin stdout PMapS.step (default : PMapS.S); return 0
